@@ -11,9 +11,10 @@ CONSTANTS
   FixedStar = TRUE
   FixedFinalInString = TRUE
   FixedNestedLiteral = TRUE
-  AnnChoices = {"noann", "int", "QA", "T"}
+  BugBuiltinsFirst = FALSE
+  AnnChoices = {"noann", "int", "QTE", "T"}
   DefaultChoices = {"none", "int:1", "..."}
-  RetChoices = {"noann", "int", "QA"}
+  RetChoices = {"noann", "int", "QTE"}
   AsyncChoices = {FALSE, TRUE}
   FutureChoices = {FALSE, TRUE}
   DunderChoices = {FALSE, TRUE}
